@@ -99,6 +99,8 @@ def h_magnitude(f, N, mode):
         for t in range(N):
             r = got[t]
             ar = abs(A.lift(r))
+            if refsem.TWIN == 'mag':
+                ar = ar * 2            # vacuity twin: perturbations up to 2|rho| are claimed harmless - must be refuted
             close = A.And(*[A.lt(abs(w2[v][i] - w[v][i]), ar) for v in vs for i in range(N)])
             same = A.Or(A.And(st[t], st2[t]), A.And(A.Not(st[t]), A.Not(st2[t])))
             res.append(('magnitude@%d' % t, A.Or(A.Not(close), A.eq(r, 0), same)))
@@ -195,4 +197,7 @@ def obligations(tier, rng):
         for mode in ('offline', 'online'):
             out.append(ob('C07', 'dense', 'dense/%s/%s/n=2,2' % (mode, text(f)), f=f, ns=[2, 2], mode=mode, max_paths=20000, wall=600))
     seen = set()
-    return [o for o in out if not (o['oid'] in seen or seen.add(o['oid']))]
+    res_ = [o for o in out if not (o['oid'] in seen or seen.add(o['oid']))]
+    from .. import core as _core
+    res_ = res_ + _core.make_twins(res_, [('sign/offline/not((x) >= (0.5))/N=3', 'sat'), ('step/offline/once(x)/N=3', 'sat'), ('magnitude/offline/not((x) >= (0.5))/N=3', 'mag')]) + _core.make_forkmode(res_, ['sign/offline/((x) >= (0.5)) and ((y) < (1.0))/N=3'])
+    return res_
